@@ -73,6 +73,7 @@ func propC01(j *Job) {
 				for _, st := range spec.Streams {
 					checkDelivery(m, "delivery", st, r.Written[st.SID], r.Read[st.SID], true)
 				}
+				runWireMonitors(m, x, allMonitors())
 				m.Observe("%s drained=%v", deliverySummary(spec, r), r.Drained)
 			}
 			sc := xferScenario(spec, res)
